@@ -312,6 +312,8 @@ def run(ck, P):
                             done = "returned"
                             break
                     if done is None:
+                        if any(a.get(x_) is False for x_ in al):
+                            continue          # the object is NULL on this path (tested through a copy of the pointer)
                         bad = path
                         break
                 # released once: after a container took the object over (an insert that succeeded on this path), this function does not
